@@ -168,4 +168,23 @@ PROPS = {
         "assumptions": _TRUST + ["a fresh instance of the same class built with the final vector is the reference ('trivial single-copy system'); "
                                  "a defect shared by the build path and the update path is invisible to this check"],
     },
+    "C08": {
+        "world": "dsim.worlds.solver.SolverWorld",
+        "tiers": {"quick": {"runs": 320, "chunk": 2, "run_cap_s": 300, "wall_cap_s": 800},
+                  "thorough": {"runs": 6000, "chunk": 4, "run_cap_s": 600, "wall_cap_s": 2700}},
+        "rule": "one evaluation = one simulated run: one VQESolver (ansatz, molecule or qubit Hamiltonian, encoding, ordering, ref_state / "
+                "projective / deflation / penalty options, exact or 2000 shots drawn per run) driven through 4-15 steps of "
+                "energy_estimation, operator_expectation (N, Sz, S^2, FermionOperator, QubitOperator; theta given or None), get_rdm (as a "
+                "state-perturbing step), short simulate() runs with every optimiser call intercepted, and rejected calls (wrong-length "
+                "vectors, unknown operator name / type); every returned number is compared with dense linear algebra on the solver's own "
+                "circuit and the Hamiltonian snapshot taken at build time, the solver's Hamiltonian is compared with that snapshot after "
+                "every step and the energy is re-evaluated after every refused call. Distinct = (ansatz, molecule, mapping, ordering, "
+                "step kind, operator) tuples; non-trivial = run with >=3 steps of >=2 kinds or >=1 refused call.",
+        "probes": ["C08.energy_after_refused_call", "C08.symmetry_expectation_checked", "C08.deflation_overlap_checked"],
+        "components_real": ["VQESolver (build, energy_estimation, operator_expectation, get_rdm, simulate), all built-in ansaetze, Backend / "
+                            "CirqSimulator expectation routes, fermion_to_qubit_mapping + SecondQuantizedMolecule + PySCF (data producers)"],
+        "components_stub": ["the classical optimiser is replaced by a 1-3 point evaluator through the public 'optimizer' option"],
+        "assumptions": _TRUST + ["fermion_to_qubit_mapping is used as data producer for the symmetry operators (encoding faithfulness is C03, "
+                                 "not claimed); N, Sz, S^2 themselves are written out independently with openfermion arithmetic"],
+    },
 }
